@@ -156,11 +156,11 @@ _ADDENDA6 = {
     "C02": " Sources with wrappers and brackets nested several deep (list types, list / object values, selection sets) in spans.",
     "C03": " One printer object reused across documents (printer_reuse).",
     "C04": " The value resolved for an Int position as a SYMBOLIC integer through both executors (int_result: data-symbolic, z3 decides the 32-bit range checks). Every condition also runs a third leg: the generic Executor on the stub thread pool with the tasks completed last-submitted-first.",
-    "C05": " Third leg of every comparison: the generic Executor on the stub thread pool, tasks completed last-submitted-first. List / object literals at custom-scalar positions (custom_scalar_literals).",
+    "C05": " Third leg of every comparison: the generic Executor on the stub thread pool, tasks completed last-submitted-first. List / object literals at custom-scalar positions (custom_scalar_literals). One fragment spread several times in one selection set with some spreads switched off (spread_directives).",
     "C06": " Ordered pairs of spellings of compound argument values in merged fields (argument_spellings).",
     "C08": " A deferred value produced by the object's own method and found by the default resolver.",
     "C09": " A list-typed top-level field that fails while a later item is completed after the sub-selection of an earlier item has been started.",
-    "C10": " GetOperation as a product of documents x operation names x entry points (operation_selection); numbers too large for a float as Float variable values; the variable-coercion stage uses its variable (the older stage was refused by validation already).",
+    "C10": " GetOperation as a product of documents x operation names x entry points (operation_selection); numbers too large for a float as Float variable values; the variable-coercion stage uses its variable (the older stage was refused by validation already). A symbolic error message and extensions value through the real executors arrive unchanged (resolver_message: data-symbolic).",
     "C11": " A member declared twice as a product of member kind x placement of the two occurrences x route (sdl_duplicates).",
     "C12": " The white-list form of include_custom_schema_directives as a product over every subset of names (directive_whitelist); string defaults of custom scalars that look like numbers (scalar_default_texts).",
     "C13": " Late resolver registrations on a validated schema.",
@@ -169,7 +169,7 @@ _ADDENDA6 = {
     "C16": " Requests refused at variable coercion (missing / wrong type / null; query, mutation, parsed document) with an anti-vacuity assertion.",
     "C17": " Events whose execution aborts with a non-field exception: the later events are still delivered (aborted_events).",
     "C18": " The node under test replaced by enter() while one of its children is kept / deleted / replaced / skipped (parent_replace).",
-    "C19": " Operations whose deepest path runs through meta-fields (depth_meta); the rule as validator of the public entry points with the request's variables (depth_entry).",
+    "C19": " Operations whose deepest path runs through meta-fields (depth_meta); the rule as validator of the public entry points with the request's variables (depth_entry). The limit as a SYMBOLIC integer through the real rule: flagged iff depth > limit for every limit (depth_symbolic_limit: data-symbolic).",
     "C20": " Schemas derived from one another and new-in-both elements (derived_new).",
 }
 for _k, _v in _ADDENDA6.items():
